@@ -25,6 +25,8 @@ def own_tokens(inst):
         "assert": ["ISZERO", OBJ, "JUMPI"], "jmp": [OBJ, "JUMP"], "jnz": [OBJ, "JUMPI", OBJ, "JUMP"],
         "assign": [], "nop": [], "alloca": [], "sha3": ["SHA3"], "iload": ["MLOAD"], "istore": ["SWAP1", "MSTORE"],
         "djmp": ["JUMP"], "return": ["RETURN"], "ret": ["JUMP"],
+        # caller side of the internal-call convention: PUSHLABEL return_label; PUSHLABEL target; JUMP; return_label:
+        "invoke": [OBJ, OBJ, "JUMP", OBJ],
     }.get(op)
 
 
@@ -154,6 +156,10 @@ def validate(vc, rec):
             top = m.s[len(m.s) - k:]
             if not all(same(vc, s, o) for s, o in zip(top, operands)):
                 raise Unsupported(f"at the opcode the top of the stack is {top}, operands are {operands}")
+            if op == "ret" and len(m.s) != k:
+                # the callee's frame must be exactly (return values ..., return pc): anything left below would be
+                # taken by the caller for a return value / shift its own frame
+                raise Unsupported(f"`ret` leaves {len(m.s) - k} extra item(s) on the callee's frame: {m.s[:len(m.s) - k]}")
             del m.s[len(m.s) - k:]
             m.s.extend(outputs)
             i = p + len(T)
@@ -214,7 +220,38 @@ class InstRecorder:
             return asm
 
         VenomCompiler._generate_evm_for_instruction = wrapper
+
+        # callee entry: the stack map starts as the `param` outputs in instruction order (return pc last = on top);
+        # the prologue (popmany of dead params + optimistic swap) must transform exactly that into the stack map
+        self._orig_prep = VenomCompiler._prepare_stack_for_function
+
+        def prep(vc, asm, fn, stack):
+            start = len(asm)
+            before = list(stack._stack)
+            r = rec._orig_prep(vc, asm, fn, stack)
+            params = [i.output for i in fn.entry.instructions if i.is_param]
+            try:
+                m = Machine(before + params, {}, set())
+                toks = tokenize(asm[start:])
+                i = 0
+                while i < len(toks):
+                    j = m.manip(toks, i)
+                    if j is None:
+                        raise Unsupported(f"token {toks[i]} in a function prologue")
+                    i = j
+                if len(m.s) != len(stack._stack) or not all(same(vc, s, o) for s, o in zip(m.s, stack._stack)):
+                    raise Unsupported(f"machine stack {m.s} != stack map {stack._stack}")
+                rec.n_ok += 1
+                rec.by_op["<prologue>"] = rec.by_op.get("<prologue>", 0) + 1
+            except Unsupported as e:
+                rec.fail.append({"function": fn.name.value, "block": fn.entry.label.value, "instruction": "<function prologue>",
+                                 "stack_before": [str(x) for x in before + params], "assembly": [str(x) for x in asm[start:]],
+                                 "stack_after": [str(x) for x in stack._stack], "problem": str(e)})
+            return r
+
+        VenomCompiler._prepare_stack_for_function = prep
         return self
 
     def __exit__(self, *a):
         self._cls._generate_evm_for_instruction = self._orig
+        self._cls._prepare_stack_for_function = self._orig_prep
